@@ -228,3 +228,58 @@ def small_scope(max_depth: int = 3) -> Iterator[dict]:
                 yield from decorate(node(kids=[a, b]))
 
     yield from level(max_depth)
+
+
+# ---------------------------------------------------------------- exhaustive small scopes (thorough tier)
+SIX_ATOMS = [node(ty="int"), node(ty="str"), node(ty="None"), node(ty="Any"), node(lits=["a", 1]), node(ref={"name": "Foo", "nullable": False})]
+
+
+def exhaustive_depth3() -> Iterator[dict]:
+    """ALL trees of depth ≤ 3 over the six-atom vocabulary: a leaf is one of the six atoms (int, str, None, Any,
+    Literal['a', 1], the reference Foo); an inner node has one or two children and carries the optional flag
+    and {plain, list}.  6 + 4·(6 + 6²) = 174 trees of depth ≤ 2 and 6 + 4·(174 + 174²) = 121 806 of depth ≤ 3
+    (an optional / list leaf is the one-child inner node around it)."""
+
+    def decorate(kids):
+        for opt in (False, True):
+            for lst in (False, True):
+                yield node(kids=kids, opt=opt, list_=lst)
+
+    def level(k):
+        if k == 1:
+            return list(SIX_ATOMS)
+        subs = level(k - 1)
+        out = list(level(1))
+        for a in subs:
+            out.extend(decorate([a]))
+        for a in subs:
+            for b in subs:
+                out.extend(decorate([a, b]))
+        return out
+
+    yield from level(3)
+
+
+def exhaustive_depth2() -> Iterator[dict]:
+    """ALL trees of depth ≤ 2 with every decoration at every node, leaves included: optional flag ×
+    {plain, list, set, dict, dict with an optional int key}; one or two children.  60 leaves, 60 + 10·(60 + 60²) = 36 660 trees."""
+    key = node(ty="int", opt=True)
+
+    def decorate(d):
+        for opt in (False, True):
+            for cont in ("", "list", "set", "dict", "dictkey"):
+                x = dict(d, opt=opt)
+                if cont == "dictkey":
+                    x["dict"] = True
+                    x["key"] = key
+                elif cont:
+                    x[cont] = True
+                yield x
+
+    leaves = [x for l in SIX_ATOMS for x in decorate(l)]
+    yield from leaves
+    for a in leaves:
+        yield from decorate(node(kids=[a]))
+    for a in leaves:
+        for b in leaves:
+            yield from decorate(node(kids=[a, b]))
